@@ -76,10 +76,10 @@ def install_qforward_contract(E, cache):
 def step_contracts(run):
     for kind in ("linear", "conv2d", "layernorm"):
         for aq in ("qint8", "qfloat8_e4m3fn", "qfloat8_e5m2"):
-            for hook, dt in [(h_, d_) for h_ in ("input-float", "input-quantized", "output") for d_ in ("float32", "float16")]:
+            for hook, dt in [(h_, d_) for h_ in ("input-float", "input-quantized", "input-quantized-tagged", "output") for d_ in ("float32", "float16")]:
                 if run.tier == "quick" and kind != "linear" and aq != "qint8":
                     continue
-                if dt == "float16" and not (kind == "linear" and aq == "qint8" and hook != "input-quantized"):
+                if dt == "float16" and not (kind == "linear" and aq == "qint8" and not hook.startswith("input-quantized")):
                     continue   # half-precision module: the dtype clause (values are decided in the real algebra, the same for every dtype)
                 inst = {"module": kind, "activations": aq, "hook": hook, "dtype": dt}
                 run.count_instance(**inst)
@@ -108,9 +108,17 @@ def step_contracts(run):
                     if hook == "input-float":
                         x = new_input(E2, "X", dt, [B, F])
                         ret = E2.call(E2.getattr(cal, "calibrate_input"), [mod, (x,)], {})
-                    elif hook == "input-quantized":
+                    elif hook.startswith("input-quantized"):
                         h = OC.H(E2, aq, None)
                         x = h.q([B, F], name="X")
+                        if hook == "input-quantized-tagged":
+                            # the tensor was produced, some time ago, by another calibrated module (calibrate_output tags its result with
+                            # `src_module`); that module may have been calibrated again since: its current output scale is unrelated
+                            mod2, _, _ = make_module(E2, "linear", aq, "qint8")
+                            os2 = z3.Real("src_module_output_scale_now")
+                            E2.assume(os2 > 0)
+                            E2.setattr(mod2, "output_scale", STensor(dt, [], lambda idx: os2, device="cpu", name="OS2"))
+                            E2.setattr(x, "src_module", mod2)
                         ret = E2.call(E2.getattr(cal, "calibrate_input"), [mod, (x,)], {})
                     else:
                         x = new_input(E2, "X", dt, [B, F])
@@ -151,10 +159,11 @@ def step_contracts(run):
                     wr = [w for w in wr if w[2] not in ("input_scale", "output_scale") or w[4] is not None and CAL in str(w[4])]
                     written_other = mod.fields.get(other) is not before.get(other)
                     run.add(f"C12/frame-only-this-scale-is-written[{tag}]/path{pi}", r.hyps, z3.BoolVal(not written_other), "property", inst, replay=rp)
-                    if hook == "input-quantized":
+                    if hook.startswith("input-quantized"):
                         # adopts the (maximum) scale of the tensor it is fed
                         sc = x.fields["_scale"].elem([])
-                        run.add(f"C12/adopts-scale-of-quantized-input[{tag}]/path{pi}", r.hyps + facts, new == sc, "property", inst, replay=rp)
+                        run.add(f"C12/adopts-scale-of-quantized-input[{tag}]/path{pi}", r.hyps + facts, new == sc, "property", inst,
+                                replay=lambda mo, sd, i=dict(inst): replay_adopt(mo, sd, i))
                         continue
                     src_name = "X" if hook == "input-float" else "RAW"
                     if len(reds) != 1:
@@ -256,6 +265,43 @@ def replay(model, seed, inst, scale_one="any"):
                     if not torch.allclose(qlin.input_scale, exp_in, rtol=1e-4, atol=1e-8):
                         return {"momentum": m, "batch": k, "magnitudes": mags, "input_scale": qlin.input_scale.item(), "expected_ema": float(exp_in),
                                 "what": "input scale is not the configured-momentum EMA of absmax/qmax"}
+    return None
+
+
+def replay_adopt(model, seed, inst):
+    """A module fed an already quantized tensor adopts THAT tensor's scale - also when the tensor is consumed after its producer has
+    been calibrated again (two-stage calibration: all batches through the first module, then the retained outputs through the second)."""
+    import torch
+    from optimum.quanto import Calibration, QBytesTensor, qtypes
+    from optimum.quanto.nn import QLinear
+
+    torch.manual_seed(seed)
+    aq = qtypes[inst["activations"]]
+    for m in (0.0, 0.5, 0.9):
+        a = QLinear.from_module(torch.nn.Linear(4, 4), weights=qtypes["qint8"], activations=aq)
+        b = QLinear.from_module(torch.nn.Linear(4, 3), weights=qtypes["qint8"], activations=aq)
+        with torch.no_grad(), Calibration(momentum=m, streamline=False):
+            for order in ("chained", "two-stage"):
+                xs = [torch.randn(2, 4) * mg for mg in (1.0, 6.0, 0.2)]
+                if order == "chained":
+                    pairs = []
+                    for x in xs:
+                        h = a(x)
+                        pairs.append((h, h._scale.clone() if isinstance(h, QBytesTensor) else None))
+                        b(h)
+                        if isinstance(h, QBytesTensor) and not torch.equal(b.input_scale, pairs[-1][1].max()):
+                            return {"momentum": m, "order": order, "input_scale": b.input_scale.item(), "scale_of_fed_tensor": pairs[-1][1].max().item(),
+                                    "what": "a module fed a quantized tensor did not adopt that tensor's scale"}
+                else:
+                    hs = [a(x) for x in xs]
+                    for h in hs:
+                        if not isinstance(h, QBytesTensor):
+                            continue
+                        want = h._scale.max().clone()
+                        b(h)
+                        if not torch.equal(b.input_scale, want):
+                            return {"momentum": m, "order": order, "input_scale": b.input_scale.item(), "scale_of_fed_tensor": want.item(),
+                                    "what": "a module fed a quantized tensor (whose producer was calibrated again meanwhile) did not adopt that tensor's scale"}
     return None
 
 
